@@ -28,6 +28,15 @@ impl Client {
     pub fn get<U: AsRef<str>>(&self, url: U) -> RequestBuilder {
         RequestBuilder { method: "GET", url: url.as_ref().to_string(), body: None, auth: None, headers: Vec::new() }
     }
+    pub fn head<U: AsRef<str>>(&self, url: U) -> RequestBuilder {
+        RequestBuilder { method: "HEAD", url: url.as_ref().to_string(), body: None, auth: None, headers: Vec::new() }
+    }
+    pub fn put<U: AsRef<str>>(&self, url: U) -> RequestBuilder {
+        RequestBuilder { method: "PUT", url: url.as_ref().to_string(), body: None, auth: None, headers: Vec::new() }
+    }
+    pub fn delete<U: AsRef<str>>(&self, url: U) -> RequestBuilder {
+        RequestBuilder { method: "DELETE", url: url.as_ref().to_string(), body: None, auth: None, headers: Vec::new() }
+    }
     #[must_use]
     pub fn builder() -> ClientBuilder {
         ClientBuilder { _private: () }
@@ -147,7 +156,7 @@ impl Future for SendFuture {
         let conn = self.conn.expect("connection");
         match sim::poll_head(conn) {
             sim::HeadState::Pending => Poll::Pending,
-            sim::HeadState::Ready(status) => Poll::Ready(Ok(Response { conn, status })),
+            sim::HeadState::Ready(status) => Poll::Ready(Ok(Response { conn, status, read: 0 })),
             sim::HeadState::Failed(what) => Poll::Ready(Err(Error { kind: Kind::Request, status: None, msg: what })),
         }
     }
@@ -157,6 +166,41 @@ impl Future for SendFuture {
 pub struct Response {
     conn: usize,
     status: u16,
+    /// number of body bytes already handed out through `chunk()`
+    read: usize,
+}
+
+/// Stand-in for bytes::Bytes (what `chunk()`/`bytes()` hand out).
+#[derive(Clone, Debug, PartialEq, Eq, Default)]
+pub struct Bytes(Vec<u8>);
+impl std::ops::Deref for Bytes {
+    type Target = [u8];
+    fn deref(&self) -> &[u8] {
+        &self.0
+    }
+}
+impl AsRef<[u8]> for Bytes {
+    fn as_ref(&self) -> &[u8] {
+        &self.0
+    }
+}
+impl Bytes {
+    #[must_use]
+    pub fn to_vec(&self) -> Vec<u8> {
+        self.0.clone()
+    }
+}
+impl From<Bytes> for Vec<u8> {
+    fn from(b: Bytes) -> Vec<u8> {
+        b.0
+    }
+}
+impl IntoIterator for Bytes {
+    type Item = u8;
+    type IntoIter = std::vec::IntoIter<u8>;
+    fn into_iter(self) -> Self::IntoIter {
+        self.0.into_iter()
+    }
 }
 
 impl Response {
@@ -164,9 +208,17 @@ impl Response {
     pub fn status(&self) -> StatusCode {
         StatusCode(self.status)
     }
-    pub fn bytes(self) -> impl Future<Output = Result<Vec<u8>, Error>> {
+    pub fn bytes(self) -> impl Future<Output = Result<Bytes, Error>> {
         let t = TextFuture { conn: self.conn };
-        async move { t.await.map(String::into_bytes) }
+        async move { t.await.map(|s| Bytes(s.into_bytes())) }
+    }
+    /// Streams the body: the bytes that arrived since the last call, `None` at the end of the body.
+    pub fn chunk(&mut self) -> impl Future<Output = Result<Option<Bytes>, Error>> + '_ {
+        ChunkFuture { resp: self }
+    }
+    #[must_use]
+    pub fn content_length(&self) -> Option<u64> {
+        sim::content_length(self.conn)
     }
     /// `Err` iff the status is a client or server error (400..=599), like reqwest.
     pub fn error_for_status_ref(&self) -> Result<&Self, Error> {
@@ -185,6 +237,25 @@ impl Response {
     }
     pub fn text(self) -> impl Future<Output = Result<String, Error>> {
         TextFuture { conn: self.conn }
+    }
+}
+
+struct ChunkFuture<'a> {
+    resp: &'a mut Response,
+}
+impl Future for ChunkFuture<'_> {
+    type Output = Result<Option<Bytes>, Error>;
+    fn poll(mut self: Pin<&mut Self>, _cx: &mut Context<'_>) -> Poll<Self::Output> {
+        let (conn, read) = (self.resp.conn, self.resp.read);
+        match sim::poll_chunk(conn, read) {
+            sim::ChunkState::Pending => Poll::Pending,
+            sim::ChunkState::Data(d) => {
+                self.resp.read += d.len();
+                Poll::Ready(Ok(Some(Bytes(d))))
+            }
+            sim::ChunkState::End => Poll::Ready(Ok(None)),
+            sim::ChunkState::Failed(what) => Poll::Ready(Err(Error { kind: Kind::Body, status: None, msg: what })),
+        }
     }
 }
 
